@@ -21,7 +21,7 @@ HOOKS = ['LogSolution', 'LogWork', 'LogSDCIterations', 'LogStepSize', 'LogGlobal
 
 def plan(tier):
     if tier == 'thorough':
-        return {'n': 300000, 'chunk': 300, 'timeout': 300, 'selftest': 60, 'budget_s': 7200, 'minimize_s': 300}
+        return {'n': 300000, 'chunk': 300, 'timeout': 300, 'selftest': 60, 'budget_s': 3000, 'minimize_s': 300}
     return {'n': 3500, 'chunk': 70, 'timeout': 300, 'selftest': 12, 'budget_s': 900, 'minimize_s': 120}
 
 
